@@ -296,6 +296,14 @@ def rule_magnitude(ctx: Ctx) -> None:
         lossy += [x for _f, x in sc.walk() if isinstance(x, ast.Attribute) and x.attr in ("seconds", "microseconds") and isinstance(x.ctx, ast.Load) and "timedelta" in sc.text()]
         ctx.add("2-magnitude", f, lossy[0] if lossy else f.node, not lossy, f"{conv} is lossless (no rounding)" if not lossy else
                 f"`{norm(lossy[0])[:50]}` loses part of the magnitude inside {conv} (rounding / a component instead of the total): different quantities compare equal or a longer one compares smaller, so combine_max can return less than an operand", key=f"lossless {conv}")
+        if conv == "_convert_to_seconds":
+            # "D:HH:MM:SS": a day is 24 hours - a positional scheme that multiplies by 60 at every field counts it as 60
+            ints = {x.value for _f, x in sc.walk() if isinstance(x, ast.Constant) and isinstance(x.value, int) and not isinstance(x.value, bool)}
+            day = bool(ints & {24, 86400, 1440})
+            only_sixties = bool(ints & {60, 3600}) and ints <= {0, 1, 2, 3, 4, 60, 3600, -1, -4}
+            ctx.tri("2-magnitude", f, f.node, day, only_sixties and not day and "timedelta" not in sc.text(), "the days field is weighted with 24 hours",
+                    f"{conv} only ever multiplies by 60 (constants {sorted(ints)}): the days field of 'D:HH:MM:SS' is counted as 60 hours - '1:00:00:00' (24 h) is taken for longer than '0:59:00:00' - durations with days are mis-ordered against each other and combine_max can return less than an operand",
+                    f"weight of the days field not recognised (constants {sorted(ints)[:8]})", key="days-are-24h")
         numeric = any(isinstance(x, ast.Call) and dotted(x.func) in ("float", "int", "sum") for _f, x in sc.walk())
         ctx.tri("2-magnitude", f, f.node, numeric, False, f"{conv} produces a number", "", f"{conv} has no float()/int() conversion this rule recognises", key=f"numeric {conv}")
 
